@@ -98,6 +98,14 @@ def pi_vector(cfg, data=None, forests=None):
     return out
 
 
+def cold_array_caches():
+    """Every replayed path must start from the same memoisation state (see row_task.once)."""
+    import phyclone.tree.utils as _tu
+
+    _tu.compute_log_S.cache_clear()
+    _tu._convolve_two_children.cache_clear()
+
+
 def row_task(task):
     """Worker entry: exact row of the transition kernel from one start forest."""
     from vlib.harness import Partial
